@@ -145,6 +145,11 @@ def stimuli(tier, seed, ctx):
     nr = 500 if tier == 'quick' else 10000
     for _ in range(nr):
         cfg = _rand_fsm(rnd)
+        if rnd.random() < 0.25:
+            # the run starts from a saved state: a timed state whose timer has some ticks left
+            timed = [x for x in range(1, cfg['n'] + 1) if cfg['tev'][x - 1]]
+            rs = rnd.choice(timed) if timed and rnd.random() < 0.8 else rnd.randint(1, cfg['n'])
+            cfg['rest'] = {'on': True, 's': rs, 'due': rnd.randint(1, 6) if cfg['tev'][rs - 1] else -1}
         out.append({'cfg': cfg, 'args': {'reps': [_rep(rnd) for _ in range(8)]},
                     'script': _rand_script(rnd, cfg, 14), 'stop_at': rnd.randint(3, 18), 'tail': 8,
                     'stopfault': 6 if rnd.random() < 0.2 else 0})
@@ -334,6 +339,8 @@ def execute(stim):
             for s in range(1, n + 1):
                 if cfg['xbad'][s - 1]:      # this on_exit event fails non-fatally
                     kw[f'on_exit_s{s}'] = edzed.Event(sink, 'nosuchevent')
+        if cfg.get('rest', {}).get('on'):
+            kw['persistent'] = True
         return cls('blk', initdef=snames[cfg['init'] - 1], **kw)
 
     def factory(loop, clock):
@@ -357,6 +364,10 @@ def execute(stim):
             st['fsm'], st['loop'] = fsm, loop
             edzed.Not('keepalive').connect(fsm)
             st['t0'], st['wall0'] = loop.time(), clock.time()
+            rest = cfg.get('rest') or {}
+            if rest.get('on'):
+                circuit.set_persistent_data({fsm.key: (
+                    f"s{rest['s']}", None if rest['due'] < 0 else st['wall0'] + rest['due'] * TICK, {})})
             st['driver'] = True         # the initialising Goto is not a timer expiry
             task = asyncio.create_task(circuit.run_forever())
             try:
@@ -446,7 +457,9 @@ def execute(stim):
         vt.run(factory)
     finally:
         edzed.SBlock.event = orig_event
-    return {'hdr': cfg, 'ev': lines}
+    hdr = dict(cfg)
+    hdr.setdefault('rest', {'on': False, 's': 1, 'due': -1})
+    return {'hdr': hdr, 'ev': lines}
 
 
 def nontrivial(stim, trace):
